@@ -40,6 +40,7 @@ func rulesC19(c *Ctx) {
 	ruleComparators(c, "C19.CMP", "objectz", "compare")
 	ruleComparatorDirectionSet(c, "C19.CMPDIR", "objectz", "compare")
 	ruleMakeNonNeg(c, "C19.MAKENEG", "objectz")
+	ruleIteratorNotTypedNil(c, "C19.ITERNIL", "objectz")
 	c.Floor("C19.CMP", 5)
 	ruleIdTieBreak(c, "C19.TIEBREAK", p.SSAFunc(p.Method("objectz", "ObjectStore", "newRowComparator")))
 	ruleRowComparatorFirstNonZero(c, "C19.CMP", p.SSAFunc(p.Method("objectz", "compoundObjectComparator", "compare")))
